@@ -488,6 +488,10 @@ def _stack(
     batch_size = list_of_tensordicts[0].batch_size
     if dim < 0:
         dim = len(batch_size) + dim + 1
+    if dim < 0 or dim > len(batch_size):
+        raise IndexError(
+            f"Dimension out of range (expected to be in range of [{-len(batch_size) - 1}, {len(batch_size)}], but got {dim})"
+        )
 
     for td in list_of_tensordicts[1:]:
         if td.batch_size != list_of_tensordicts[0].batch_size:
